@@ -1,6 +1,6 @@
 """C09 - the same text means the same graphs in every container and stream framing.
 
-Space: every sequence of 0..3 (thorough: 0..4) graphs from a 8-graph corpus (metadata with
+Space: every sequence of 0..3 (thorough: 0..4) graphs from a 9-graph corpus (metadata with
 several keys on one line, empty values, values holding ; ( ) " # and U+2028 / U+0085 / FF / VT
 / U+001C, string constants holding the same) x serialisation {dumps, dump to StringIO, dump
 to a real file, manual join with blank line / newline / space / nothing} x indent {-1, None, 0} x line
@@ -34,7 +34,9 @@ CORPUS = [
     '(h / eta :ARG0 (i / iota :ARG0 (j / kappa)) :ARG1 j)',
     '# ::id 7 ::lang C#\n(k)',
     '# ::empty\n(m / mu :ARG0 (n / nu))',
+    '(x / X :consist-of (y / Y :mod-of x) :ARG0-of y)',
 ]
+MODELS = ['DEFAULT', 'AMR']     # the last corpus graph reads differently under the two
 TERMS = {'LF': '\n', 'CRLF': '\r\n', 'CR': '\r'}
 INDENTS = [-1, None, 0]
 SERIALS = ['dumps', 'dump_stringio', 'dump_file', 'join_blank', 'join_newline', 'join_space', 'join_none']
@@ -47,7 +49,7 @@ def shards(tier, seed):
     seqs = [()]
     for k in range(1, n + 1):
         seqs += list(itertools.product(range(len(CORPUS)), repeat=k))
-    b = f'all sequences of 0..{n} graphs from 8 x 7 serialisations x 3 indents x 3 terminators x 6 containers x 2 APIs'
+    b = f'all sequences of 0..{n} graphs from 9 x 7 serialisations (sequences containing the model-sensitive graph also under the AMR model) x 3 indents x 3 terminators x 6 containers x 2 APIs'
     for i in range(0, len(seqs), 4):
         out.append({'sub': 'framing', 'seqs': [list(s) for s in seqs[i:i + 4]], 'bounds': b})
     return out
@@ -58,6 +60,8 @@ def cases(shard):
         for ser in SERIALS:
             for indent in INDENTS:
                 yield {'seq': seq, 'ser': ser, 'indent': indent}
+                if 8 in seq:
+                    yield {'seq': seq, 'ser': ser, 'indent': indent, 'model': 'AMR'}
 
 
 def _sig(g):
@@ -74,26 +78,30 @@ def _split_keep(text, term):
 _ref_cache = {}
 
 
-def _reference(i):
+def _reference(i, mname='DEFAULT'):
     """Expected tree, metadata, triples and top of corpus entry i from the reference lexer, grammar and
     interpretation (not from penman: a defect shared by all containers must not cancel out)."""
-    if i not in _ref_cache:
+    if (i, mname) not in _ref_cache:
         from pmc.ref import grammar as RG, lexer as RL, interp as RI
         from pmc.ref.roles import RefModel
         r = RG.parse_one(RL.lex(CORPUS[i]))
         assert r[0] == 'ok', CORPUS[i]
-        it = RI.interpret(r[1], RefModel())
-        _ref_cache[i] = (r[1], r[2], it['triples'], it['top'])
-    return _ref_cache[i]
+        from pmc.domains import models as MM
+        it = RI.interpret(r[1], MM.get(mname)[1])
+        _ref_cache[(i, mname)] = (r[1], r[2], it['triples'], it['top'])
+    return _ref_cache[(i, mname)]
 
 
 def check(case, ctx):
     import penman
-    originals = [penman.decode(CORPUS[i]) for i in case['seq']]
+    from pmc.domains import models as MM
+    mname = case.get('model', 'DEFAULT')
+    model = MM.get(mname)[0] if mname != 'DEFAULT' else None
+    originals = [penman.decode(CORPUS[i], model=model) for i in case['seq']]
     want = [_sig(g) for g in originals]
     want_trees = [(penman.parse(CORPUS[i]).node, dict(penman.parse(CORPUS[i]).metadata)) for i in case['seq']]
     for i, w, wt in zip(case['seq'], want, want_trees):
-        node, md, triples, top = _reference(i)
+        node, md, triples, top = _reference(i, mname)
         if wt[0] != node or wt[1] != md or w[0] != triples or w[1] != top or w[3] != md:
             ctx.fail('decoding a corpus graph on its own differs from the reference reading (tree, metadata, triples, top)',
                      expected=[node, md, triples, top], observed=[wt[0], wt[1], w[0], w[1], w[3]])
@@ -104,21 +112,21 @@ def check(case, ctx):
     try:
         # ---- serialise
         if ser == 'dumps':
-            text = penman.dumps(originals, indent=indent)
+            text = penman.dumps(originals, model=model, indent=indent)
         elif ser == 'dump_stringio':
             buf = io.StringIO()
-            penman.dump(originals, buf, indent=indent)
+            penman.dump(originals, buf, model=model, indent=indent)
             text = buf.getvalue()
         elif ser == 'dump_file':
             p = os.path.join(d, 'dump.txt')
             with open(p, 'w', encoding='utf-8') as fh:
                 fh.write('(stale / content)\n')       # dump must replace whatever the file held
-            penman.dump(list(originals) if len(originals) % 2 == 0 else iter(originals), p, indent=indent)
+            penman.dump(list(originals) if len(originals) % 2 == 0 else iter(originals), p, model=model, indent=indent)
             with open(p, encoding='utf-8', newline='') as fh:
                 text = fh.read()
         else:
             joiner = {'join_blank': '\n\n', 'join_newline': '\n', 'join_space': ' ', 'join_none': ''}[ser]
-            text = joiner.join(penman.encode(g, indent=indent) for g in originals)
+            text = joiner.join(penman.encode(g, model=model, indent=indent) for g in originals)
         ctx.transitions += 1
         for tname, term in TERMS.items():
             t = text.replace('\n', term)
@@ -126,27 +134,27 @@ def check(case, ctx):
             for cont in CONTAINERS:
                 try:
                     if cont == 'str':
-                        gs = penman.loads(t)
+                        gs = penman.loads(t, model=model)
                         ts = list(penman.iterparse(t))
                     elif cont == 'lines':
-                        gs = list(penman.iterdecode(lines_no))
+                        gs = list(penman.iterdecode(lines_no, model=model))
                         ts = list(penman.iterparse(lines_no))
                     elif cont == 'lines_with_terminators':
-                        gs = list(penman.iterdecode(lines_with))
+                        gs = list(penman.iterdecode(lines_with, model=model))
                         ts = list(penman.iterparse(lines_with))
                     elif cont == 'stream':
-                        gs = penman.load(io.StringIO(t, newline=None))
+                        gs = penman.load(io.StringIO(t, newline=None), model=model)
                         ts = list(penman.iterparse(io.StringIO(t, newline=None)))
                     else:
                         p = os.path.join(d, 'in.txt')
                         with open(p, 'w', encoding='utf-8', newline='') as fh:
                             fh.write(t)
                         if cont == 'filename':
-                            gs = penman.load(p, encoding='utf-8')
+                            gs = penman.load(p, model=model, encoding='utf-8')
                             ts = None
                         else:
                             with open(p, encoding='utf-8') as fh:
-                                gs = penman.load(fh)
+                                gs = penman.load(fh, model=model)
                             with open(p, encoding='utf-8') as fh:
                                 ts = list(penman.iterparse(fh))
                 except Exception as e:      # noqa: BLE001
